@@ -1287,9 +1287,28 @@ _lookup(LB* self,
     }
     if (result == NULL) {
         int status;
+        PyObject* uncached_name;
 
-        result = PyObject_CallMethodObjArgs(
-          OBJECT(self), str_uncached_lookup, required, provided, name, NULL);
+        /* Like the Python implementation, always hand the name on
+           (``name=''`` when none was given). */
+        if (name == NULL) {
+            uncached_name = PyUnicode_FromString("");
+            if (uncached_name == NULL) {
+                Py_DECREF(cache);
+                Py_DECREF(required);
+                return NULL;
+            }
+        } else {
+            uncached_name = name;
+            Py_INCREF(uncached_name);
+        }
+        result = PyObject_CallMethodObjArgs(OBJECT(self),
+                                            str_uncached_lookup,
+                                            required,
+                                            provided,
+                                            uncached_name,
+                                            NULL);
+        Py_DECREF(uncached_name);
         if (result == NULL) {
             Py_DECREF(cache);
             Py_DECREF(required);
